@@ -278,8 +278,30 @@ func (c *FuncCtx) loopSpec(n ast.Stmt) (*LoopSpec, int) {
 // checkInvariants emits the obligations for the invariant clauses in state st.
 // head, when non-nil, is the loop-head snapshot used to split  forall k in lo..hi  goals
 // whose upper bound advanced by a small constant into an "old range" goal and ground lanes.
+// optionalSkipped: an `invariant?` clause that mentions an identifier unknown in this state.
+func (c *FuncCtx) optionalSkipped(st *State, inv *Clause) (skip bool) {
+	if !inv.Optional {
+		return false
+	}
+	defer func() {
+		if r := recover(); r != nil {
+			if ve, ok := r.(verifError); ok && strings.Contains(ve.msg, "unknown identifier") {
+				skip = true
+				return
+			}
+			panic(r)
+		}
+	}()
+	var facts []*Term
+	c.specEnv(st, &facts).Bool(inv.Expr)
+	return false
+}
+
 func (c *FuncCtx) checkInvariants(st *State, ls *LoopSpec, ord int, kind string, head *State, at ast.Node, hintFacts []*Term) {
 	for i, inv := range ls.Inv {
+		if c.optionalSkipped(st, inv) {
+			continue
+		}
 		var facts []*Term
 		se := c.specEnv(st, &facts)
 		detail := fmt.Sprintf("loop%d.%d", ord, i)
@@ -351,6 +373,9 @@ func splitConj(e ast.Expr) []ast.Expr {
 
 func (c *FuncCtx) assumeInvariants(st *State, ls *LoopSpec) {
 	for _, inv := range ls.Inv {
+		if c.optionalSkipped(st, inv) {
+			continue
+		}
 		var facts []*Term
 		se := c.specEnv(st, &facts)
 		g := se.Bool(inv.Expr)
